@@ -281,7 +281,51 @@ fn run_parse_case(case: &[String]) -> String {
     format!("{{\"case\":{},\"text\":{},\"result\":{}}}", jstr(head[1]), jstr(&text), jstr(&res))
 }
 
+fn run_slotmap_case(case: &[String]) -> String {
+    // maps are named by single tokens; slots are given as u32 values. every line yields one result string.
+    let head: Vec<&str> = case[0].split_whitespace().collect();
+    let mut maps: HashMap<String, SlotMap> = HashMap::new();
+    let mut out: Vec<String> = Vec::new();
+    let sv = |x: &str| slot_of_value(x.parse::<u32>().unwrap());
+    let show = |m: &SlotMap| -> String { m.iter().map(|(k, v)| format!("{}>{}", value_of_slot(k), value_of_slot(v))).collect::<Vec<_>>().join(",") };
+    for line in &case[1..] {
+        let t: Vec<&str> = line.split_whitespace().collect();
+        let r = catch_unwind(AssertUnwindSafe(|| -> String {
+            match t[0] {
+                "new" => { maps.insert(t[1].to_string(), SlotMap::new()); "ok".to_string() }
+                "pairs" => { let mut m = SlotMap::new(); let mut i = 2; while i + 1 < t.len() { m.insert(sv(t[i]), sv(t[i + 1])); i += 2; } maps.insert(t[1].to_string(), m); "ok".to_string() }
+                "frompairs" => { let mut v = Vec::new(); let mut i = 2; while i + 1 < t.len() { v.push((sv(t[i]), sv(t[i + 1]))); i += 2; } maps.insert(t[1].to_string(), SlotMap::from_pairs(&v)); "ok".to_string() }
+                "insert" => { maps.get_mut(t[1]).unwrap().insert(sv(t[2]), sv(t[3])); "ok".to_string() }
+                "remove" => { maps.get_mut(t[1]).unwrap().remove(sv(t[2])); "ok".to_string() }
+                "get" => match maps[t[1]].get(sv(t[2])) { Some(v) => format!("some {}", value_of_slot(v)), None => "none".to_string() },
+                "index" => format!("some {}", value_of_slot(maps[t[1]][sv(t[2])])),
+                "contains" => maps[t[1]].contains_key(sv(t[2])).to_string(),
+                "len" => maps[t[1]].len().to_string(),
+                "dump" => show(&maps[t[1]]),
+                "keys" => maps[t[1]].keys().iter().map(|k| value_of_slot(*k).to_string()).collect::<Vec<_>>().join(","),
+                "values" => { let mut v: Vec<u32> = maps[t[1]].values().iter().map(|k| value_of_slot(*k)).collect(); v.sort(); v.iter().map(|x| x.to_string()).collect::<Vec<_>>().join(",") }
+                "inverse" => { let m = maps[t[1]].inverse(); maps.insert(t[2].to_string(), m); "ok".to_string() }
+                "compose" => { let m = maps[t[1]].compose(&maps[t[2]]); maps.insert(t[3].to_string(), m); "ok".to_string() }
+                "compose_partial" => { let m = maps[t[1]].compose_partial(&maps[t[2]]); maps.insert(t[3].to_string(), m); "ok".to_string() }
+                "compose_fresh" => { let m = maps[t[1]].compose_fresh(&maps[t[2]]); maps.insert(t[3].to_string(), m); "ok".to_string() }
+                "union" => { let m = maps[t[1]].union(&maps[t[2]]); maps.insert(t[3].to_string(), m); "ok".to_string() }
+                "try_union" => match maps[t[1]].try_union(&maps[t[2]]) { Some(m) => { maps.insert(t[3].to_string(), m); "some".to_string() }, None => "none".to_string() },
+                "identity" => { let set: SmallHashSet<Slot> = t[2..].iter().map(|x| sv(x)).collect(); maps.insert(t[1].to_string(), SlotMap::identity(&set)); "ok".to_string() }
+                "eq" => (maps[t[1]] == maps[t[2]]).to_string(),
+                "cmp" => format!("{:?}", maps[t[1]].cmp(&maps[t[2]])),
+                "hasheq" => { use std::hash::{Hash, Hasher}; let mut a = std::collections::hash_map::DefaultHasher::new(); let mut b = std::collections::hash_map::DefaultHasher::new(); maps[t[1]].hash(&mut a); maps[t[2]].hash(&mut b); (a.finish() == b.finish()).to_string() }
+                "is_bijection" => maps[t[1]].is_bijection().to_string(),
+                "is_perm" => maps[t[1]].is_perm().to_string(),
+                _ => panic!("natdiff: unknown slotmap op"),
+            }
+        }));
+        match r { Ok(s) => out.push(jstr(&s)), Err(e) => { out.push(jstr(&format!("panic {}", if let Some(s) = e.downcast_ref::<String>() { s.clone() } else if let Some(s) = e.downcast_ref::<&str>() { s.to_string() } else { "?".to_string() }))); } }
+    }
+    format!("{{\"case\":{},\"results\":[{}]}}", jstr(head[1]), out.join(","))
+}
+
 fn run_case(case: &[String]) -> String {
+    if case[0].starts_with("case slotmap:") { return run_slotmap_case(case); }
     if case[0].starts_with("case slot:") { return run_slot_case(case); }
     if case[0].starts_with("case parse:") { return run_parse_case(case); }
     // case <id> <lang> <analysis> <f0> <named_max> ; names v0 v1 ... ; ops...
